@@ -20,6 +20,8 @@ def td7_cfg(rng, idx=0):
         target_delay=int(rng.integers(2, 6)), policy_delay=2,
         low=[-1.0, 0.0], high=[1.0, 2.0], snap_on_log=False, logger=bool(idx % 2),
         snap_on_step=False,
+        # continued runs (the multi-task schedulers re-invoke the trainer so)
+        global_step=int(rng.choice([0, 0, 7, 23])),
     )
 
 
@@ -31,6 +33,7 @@ def run_td7_case(case):
 
     rng = np.random.default_rng(case["seed"])
     cfg = td7_cfg(rng, case.get("idx", 0))
+    cfg["total_timesteps"] += cfg["global_step"]  # the budget is absolute
     run = make_run("td7", cfg)
     tr = run.trace
     tr.snap_enabled = False
@@ -92,8 +95,9 @@ def run_td7_case(case):
                 cur_len, cur_ret = 0, 0.0
     by_end = {ep["end"]: ep for ep in eps}
     ls = cfg["learning_starts"]
+    G = cfg["global_step"]
     ref = Ref()
-    expected_epoch = 0
+    expected_epoch = max(0, G - ls)
     i = 0
     released_total = assessed_total = 0
     n_copies = n_flags = 0
@@ -116,9 +120,10 @@ def run_td7_case(case):
                           f"assessment at env step {c['n']} which does not end "
                           f"an episode")
             return res
-        if c["n"] - 1 < ls:
+        if G + c["n"] - 1 < ls:
             res.violation("C15/td7/assess_before_learning_starts",
-                          f"assessment at step index {c['n'] - 1} < learning_starts")
+                          f"assessment at step index {G + c['n'] - 1} < "
+                          f"learning_starts")
             return res
         if c["length"] != ep["length"] or abs(c["ret"] - ep["ret"]) > 1e-6:
             res.violation("C15/td7/assess_arguments",
@@ -184,7 +189,7 @@ def run_td7_case(case):
             res.see("td7_nonzero_releases")
         i = j
     # every episode that ended at/after learning_starts was assessed
-    want = [ep["end"] for ep in eps if ep["end"] - 1 >= ls]
+    want = [ep["end"] for ep in eps if G + ep["end"] - 1 >= ls]
     got = [c["n"] for c in calls if c["k"] == "assess"]
     if want != got:
         res.violation("C15/td7/assessment_missing", f"episodes ending at env "
@@ -192,5 +197,5 @@ def run_td7_case(case):
     res.see("td7_copies", n_copies)
     res.see("td7_flags", n_flags)
     res.nontrivial = released_total > 0 and n_flags > 0
-    res.state(("td7", n_flags > 0, ref.switched, released_total > 0))
+    res.state(("td7", n_flags > 0, ref.switched, released_total > 0, G > 0))
     return res
